@@ -92,6 +92,10 @@ func (fundProposalTx) Validate(ctx *action.Context, signedTx action.SignedTx) (b
 	if currency.Name != fundProposal.FundValue.Currency {
 		return false, errors.Wrap(action.ErrInvalidAmount, fundProposal.FundValue.String())
 	}
+	// a negative contribution would pay the funder out of the escrow
+	if !fundProposal.FundValue.IsValid(ctx.Currencies) {
+		return false, errors.Wrap(action.ErrInvalidAmount, fundProposal.FundValue.String())
+	}
 
 	//Check if Funder address is valid oneLedger address
 	err = fundProposal.FunderAddress.Err()
